@@ -222,9 +222,13 @@ def get_folding_profile_section(
         str_ += "Could not determine folding profile\n"
     else:
         delta = round(Decimal(window[2]),2)
+        # compare like with like: a window limit such as 1.8 or 7.6 is not exactly
+        # representable as a float and would exclude the grid point rounded to 1.800
+        window_min = round(Decimal(window[0]), 3)
+        window_max = round(Decimal(window[1]), 3)
         for (ph, dg) in profile:
             ph = round(Decimal(ph), 3)
-            if ph >= window[0] and ph <= window[1]:
+            if ph >= window_min and ph <= window_max:
                 remainder = ph % delta
                 if remainder < 0.05 or remainder > delta - Decimal("0.05"):
                     str_ += "{0:>6.2f}{1:>10.2f}\n".format(ph, dg)
